@@ -18,7 +18,7 @@ CHECKS = {
             "Differentiates the emitted RHS, so independent of C01. npar/gamma/kc held fixed as the property states.", "DESIGN.md §2 C02"),
     "C03": ("exploration", "bounded-exhaustive enumeration; CSR invariants, cross-back-end equality of (row,col,polynomial) sets, constant-evaluated subscript bounds, pattern file",
             "Every enumerated network (incl. the empty network, isolated species, thermal on/off) is rendered for dense/sparse/cusparse/rosenbrock4 with pattern output; CSR well-formedness, equality of stored entries across back-ends, every subscript against the declared sizes, and the pattern file are checked on each.",
-            "Subscripts are compile-time constants evaluated through the rendered macros; cuSPARSE text is read, not compiled.", "DESIGN.md §2 C03"),
+            "Subscripts are compile-time constants evaluated through the rendered macros; the cuSPARSE kernels are read (statements, per-system windows) and, in the conformance slice, executed on the host (launcher runs every thread of a 1 x 2 grid over a batch of 3 systems, ASan/UBSan) and compared per system with the dense back-end.", "DESIGN.md §2 C03"),
     "C04": ("exploration", "bounded-exhaustive enumeration of balanced networks; polynomial identity of weighted sums",
             "All balanced reactions (<=3 reactants, <=3 products) over a by-construction species table and all pairs from a pool (electron spellings, gas/ice, ortho/para, isotopologues, dust grains in three charge states): element- and charge-weighted sums of the emitted ydot polynomials are identically zero; GetElementAbund text equals the count-weighted abundance sum.",
             "Compositions come from the table the names were built from, never from naunet's parser.", "DESIGN.md §2 C04"),
